@@ -113,7 +113,7 @@ class Marker(LaserPath):
         lx = self.lx if lx is None else lx
         lx2 = 0.75 * self.lx if lx2 is None else lx2
 
-        x_ticks = np.repeat(lx2, len(y_ticks))
+        x_ticks = np.repeat(float(lx2), len(y_ticks))
         x_ticks[0] = lx
 
         # Set x_init
